@@ -311,9 +311,54 @@ def run(ctx):
 
             def plumbing(e):
                 nm = lastname(e.get('name') or '')
+                if nm == '__normal_iterator' and any(mentions_var(a, v) for a in e.get('args') or []):
+                    return False            # a copy of the cursor is handed on (by-value argument, lambda capture)
                 return nm.startswith('operator') or nm in ('__normal_iterator', 'begin', 'end') or e.get('name') == 'CanonicalizePath'
-            uses = [e for b in body for e in f.blocks[b]['ev'] if e['k'] == 'call' and not plumbing(e) and
-                    (any(mentions_var(a, v) for a in e.get('args') or []) or mentions_var(e.get('recv'), v))]
+            # range-for: the element is bound to a reference once per iteration; that reference stands for the cursor
+            alias = None
+            for b in body:
+                for e in f.blocks[b]['ev']:
+                    if e['k'] == 'decl' and e.get('ref') and e.get('init') is not None and mentions_var(e['init'], v) and alias is None:
+                        alias = e
+            if alias is not None:
+                v = alias['n']
+            def derefs(e):
+                # `*o` / `o->` of the loop cursor (an event of its own, or inside another event's operands)
+                if alias is not None:
+                    return any(isinstance(x, dict) and x.get('k') == 'var' and x.get('n') == v
+                               for x in walk({k_: v_ for k_, v_ in e.items() if not k_.startswith('_') and k_ not in ('l',)})) and \
+                        not (e['k'] == 'call' and lastname(e.get('name') or '').startswith('operator') and lastname(e.get('name') or '') in ('operator!=', 'operator=='))
+                for x in walk({k_: v_ for k_, v_ in e.items() if not k_.startswith('_')}):
+                    if isinstance(x, dict) and x.get('k') == 'call' and x.get('op') in ('*', '->') and mentions_var(x.get('recv'), v):
+                        return True
+                    if isinstance(x, dict) and x.get('k') == 'un' and x.get('op') == '*' and mentions_var(x.get('e'), v):
+                        return True
+                return False
+
+            def feeds_canon(e):
+                # the operand evaluation of the canonicalisation itself
+                blk = f.blocks[e['_b']]['ev']
+                for y in blk[e['_i'] + 1:]:
+                    if y['k'] == 'call' and y.get('name') == 'CanonicalizePath' and any(mentions_var(a, v) for a in y.get('args') or []):
+                        return True
+                    if y['k'] == 'call' and not plumbing(y):
+                        return False
+                return False
+            def captures(e):
+                # a lambda created in the loop body whose own body reads the element (captured by reference or by value)
+                if e['k'] != 'decl' or e.get('init') is None:
+                    return False
+                for x in walk(e['init']):
+                    if isinstance(x, dict) and x.get('k') == 'lambda' and x.get('fn') in prog.functions:
+                        g = prog.functions[x['fn']]
+                        if any(isinstance(y, dict) and y.get('k') == 'var' and y.get('n', '').split('#')[0] == v.split('#')[0]
+                               for ev_ in g.events() for y in walk({k_: v_ for k_, v_ in ev_.items() if not k_.startswith('_')})):
+                            return True
+                return False
+            uses = [e for b in body for e in f.blocks[b]['ev'] if captures(e)] + \
+                   [e for b in body for e in f.blocks[b]['ev'] if e is not alias and e['k'] in ('call', 'decl', 'asg') and e.get('name') != 'CanonicalizePath' and
+                    ((e['k'] == 'call' and not plumbing(e) and (any(mentions_var(a, v) for a in e.get('args') or []) or mentions_var(e.get('recv'), v))) or
+                     (derefs(e) and not feeds_canon(e)))]
             if not uses:
                 continue
             ncm += 1
@@ -327,7 +372,8 @@ def run(ctx):
             def same_as_done(b, i, s2):
                 for key, pol, atom in f.edge_facts(b, i, all=True):
                     a = strip(atom)
-                    if pol and isinstance(a, dict) and a.get('k') == 'call' and lastname(a.get('name') or '').startswith('operator==') and \
+                    if pol and isinstance(a, dict) and ((a.get('k') == 'call' and lastname(a.get('name') or '').startswith('operator==')) or
+                                                        (a.get('k') == 'bin' and a.get('op') == '==')) and \
                             mentions_var(a, v) and any(mentions_var(a, d) for d in done_before):
                         return False
                 return True
